@@ -10,10 +10,18 @@ Jobs (one shared run):
      reach commits on two members, a leader change after a commit and conflicting logs.
  (2) spec -> code: TLC simulation of RaftImpl prints behaviours (inputs of every tick); the harness
      replays them into the REAL `raft_step` (N real RaftServerStates + harness-owned network).
- (3) code -> spec: seeded random schedules of the real `raft_step` (larger bounds, crashes).
-     (2)+(3) are validated by TLC against RaftTrace: StepFn must reproduce the real post state /
-     outbound bag / emitted entries (else model drift), and the recorded global states must satisfy
-     the monitor and the protocol predicates (else VIOLATION).
+ (2b) directed spec -> code: a TLC breadth-first search (VIEW without the history variable) finds a
+     shortest behaviour into every figure-8 situation (3 elections among 3 members; a re-elected
+     leader holds an older-term entry stored on a majority plus an unacked entry of its own term);
+     all of them (capped) are replayed into the real `raft_step`.
+ (3) code -> spec: seeded random schedules of the real `raft_step` (larger bounds, crashes, 3 and 5
+     members; every third case biased toward re-elections of former leaders with unreplicated
+     entries and interleaved client requests).
+     (2)+(2b)+(3) are validated by TLC against RaftTrace: StepFn must reproduce the real post state /
+     outbound bag (else model drift); a different COMMIT decision (commit index / emitted entries)
+     than StepFn's is the violation `commit-differs-from-model`; the recorded global states must
+     satisfy the monitor, CommitOnlyCurrentTerm (Raft 5.4.2) and the protocol predicates (else
+     VIOLATION).  The evidence counts the real steps that ran step (d) in a figure-8 situation.
  (4) simulator level: the REAL `raft_server` dataflow under the Hydro simulator with seeded fuzzed
      schedules plus a bounded-exhaustive exploration of two simultaneous candidates; per member the
      committed entries and leader views are recorded and validated by TLC against ReplLogTrace.
@@ -35,7 +43,7 @@ PROPS = ["C40"]
 ENGINE = "spec/ReplLog: ReplLog monitor + Raft.tla step function (TLC exhaustive over schedules of bounded inputs), TLC behaviours replayed into the real raft_step, real raft_step / simulator runs of raft_server and kv_replica validated by TLC (RaftTrace, ReplLogTrace)"
 MANIFEST = {
     "C40": {
-        "text": "TLC exhaustively checks the Raft step function transcribed from raft.rs (3 members, all schedules and batchings of <=2 election interrupts, <=2 heartbeat interrupts, <=1-2 requests) against Agreement / AppendOnly / ElectionSafety and the protocol invariants; TLC-generated behaviours are replayed into the real raft_step and seeded random real runs are recorded, TLC re-derives every recorded step (state, messages, commits) and evaluates the invariants on the recorded cluster states; the real raft_server dataflow runs under the Hydro simulator (seeded fuzzed schedules + bounded-exhaustive two-candidate election) and the real kv_replica applies a decided Paxos log in all simulator orders; TLC validates every recorded committed/applied history. Paxos: TLC checks Agreement of a multi-slot Paxos model built from the acceptor rules of paxos.rs and the Recommit rule, and validates recorded calls of the real recommit_after_leader_election / index_payloads against that rule.",
+        "text": "TLC exhaustively checks the Raft step function transcribed from raft.rs (3 members, all schedules and batchings of <=2 election interrupts, <=2 heartbeat interrupts, <=1-2 requests) against Agreement / AppendOnly / ElectionSafety and the protocol invariants; TLC-generated behaviours are replayed into the real raft_step and seeded random real runs are recorded, a directed TLC search replays every shortest behaviour into a figure-8 situation (re-elected leader, older-term entry on a majority, unacked own-term entry); TLC re-derives every recorded step (state, messages, commits), treats a commit decision different from the specified step function as a violation, and evaluates CommitOnlyCurrentTerm (Raft 5.4.2) and the other invariants on the recorded cluster states; the real raft_server dataflow runs under the Hydro simulator (seeded fuzzed schedules + bounded-exhaustive two-candidate election) and the real kv_replica applies a decided Paxos log in all simulator orders; TLC validates every recorded committed/applied history. Paxos: TLC checks Agreement of a multi-slot Paxos model built from the acceptor rules of paxos.rs and the Recommit rule, and validates recorded calls of the real recommit_after_leader_election / index_payloads against that rule.",
         "note": "Paxos: the full protocol is not simulable (leader election uses wall-clock timers); bound are the components the simulator can run -- recommit_after_leader_election (value selection after an election, validated against Paxos.tla whose rule is model-checked inside PaxosImpl for Agreement), index_payloads (slot assignment) and kv_replica (slot sequencing + application); acceptor_p1/p2 and the quorum plumbing are modelled only. Simulator runs use fail-stop channels without member crashes; crashes are covered at the raft_step level (a member stops taking steps). Bounded: 3 members, terms <= 2 (exhaustive) / <= ~20 (random).",
         "technique": "TLA+ spec model-checked with TLC + conformance (TLC behaviours replayed into the code; code and simulator traces validated by TLC)",
         "design_ref": "DESIGN.md §6.17",
@@ -52,15 +60,51 @@ WITNESSES = ["election-timer-started-candidacy", "vote-granted", "leader-elected
 CANARY_BASE = 900000
 
 
-def _cfg(name, timed, maxterm, el, hb, req, net, dup, batch, emit=False, depth=0, witness=True):
+def _cfg(name, timed, maxterm, el, hb, req, net, dup, batch, emit=False, depth=0, witness=True,
+         reqat="{0, 1, 2}", directed=False):
     p = os.path.join(vlib.rundir("cfg"), name)
     inv = "C40Inv ProtocolInv NoPanic EmitMatchesLog " + ("Witness " if witness else "") + "Emit"
+    view = ""
+    if directed:
+        # breadth-first search that identifies states without the history variable: `hist` is one
+        # shortest behaviour to each state; EmitFig8 prints it at every figure-8 situation
+        inv = "C40Inv ProtocolInv NoPanic Witness EmitFig8"
+        view = "VIEW NoHist\n"
     with open(p, "w") as f:
-        f.write("SPECIFICATION Spec\nCONSTANTS\n  N = 3\n  Timed = %s\n  MaxTerm = %d\n  MaxEl = %d\n"
+        f.write("SPECIFICATION Spec\nCONSTANTS\n  N = 3\n  Timed = %s\n  ReqAt = %s\n  MaxTerm = %d\n  MaxEl = %d\n"
                 "  MaxHb = %d\n  MaxReq = %d\n  MaxNet = %d\n  MaxDup = %d\n  MaxBatch = %d\n"
-                "  EMIT = %s\n  Depth = %d\nCONSTRAINT Constraint\nINVARIANTS %s\nCHECK_DEADLOCK FALSE\n"
-                % (timed, maxterm, el, hb, req, net, dup, batch, "TRUE" if emit else "FALSE", depth, inv))
+                "  EMIT = %s\n  Depth = %d\nCONSTRAINT Constraint\n%sINVARIANTS %s\nCHECK_DEADLOCK FALSE\n"
+                % (timed, reqat, maxterm, el, hb, req, net, dup, batch, "TRUE" if emit else "FALSE", depth,
+                   view, inv))
     return p
+
+
+FIG8 = "older-term-entry-on-majority-with-unacked-current-term-entry"
+
+
+def _fig8_counts(cases):
+    """Real steps that exercised step (d) of raft_step with an OLDER-term candidate index:
+    (a) the leader ends the step holding an uncommitted entry of an older term;
+    (b) ... that entry is stored on a majority AND the leader's last entry is of its own term
+        (the figure-8 situation: a wrong Raft 5.4.2 guard commits here, the real code must not)."""
+    a = b = 0
+    bcases = set()
+    for c in cases:
+        n = c[0].get("n", 3)
+        for e in c:
+            if e.get("e") != "step" or e["post"]["role"] != 2:
+                continue
+            p = e["post"]
+            log, ci, term = p["log"], p["ci"], p["term"]
+            old = [i for i in range(ci + 1, len(log) + 1) if log[i - 1][0] < term]
+            if not old:
+                continue
+            a += 1
+            if log[-1][0] == term and any(
+                    1 + sum(1 for o in range(n) if o != e["m"] and p["match"][o] >= i) >= n // 2 + 1 for i in old):
+                b += 1
+                bcases.add(c[0]["case"])
+    return a, b, len(bcases)
 
 
 def _printed(r, marker):
@@ -310,6 +354,44 @@ def run(tier):
     res.samples.append({"kind": "TLC behaviour replayed into raft_step (tick inputs)",
                         "steps": gen[len(gen) // 2]["steps"][:8]})
 
+    # (2b) directed spec -> code: every shortest behaviour into a figure-8 situation (3 elections among
+    #      3 members: a re-elected leader gets a client request between sending AppendEntries for
+    #      its old-term entry and receiving the ack) is replayed into the real raft_step
+    r = vlib.tlc(SD, "RaftImpl",
+                 cfg=_cfg("raft_fig8.cfg", "{0, 2}", 3, 3, 2, 2, 4 if thorough else 3, 1, 1, emit=True, depth=40,
+                          reqat="{0}", directed=True),
+                 workers=8, timeout=1500, coverage=False)
+    if not r.ok:
+        raise vlib.ToolError("RaftImpl directed (figure-8) run failed (%s):\n%s" % (r.invariant, r.error_trace[-3000:]))
+    if FIG8 not in _witnesses(r):
+        raise vlib.ToolError("vacuous directed run: the figure-8 situation was never reached")
+    res.add_tlc(r, "RaftImpl directed search for figure-8 situations (VIEW without history)")
+    seen8, fig = set(), []
+    for c in _printed(r, "CASE"):
+        k = json.dumps(c, sort_keys=True)
+        if k not in seen8:
+            seen8.add(k)
+            fig.append(c)
+    fig.sort(key=lambda c: json.dumps(c, sort_keys=True))
+    nfig = len(fig)
+    cap = 400 if thorough else 80
+    if len(fig) > cap:
+        fig = [fig[(i * len(fig)) // cap] for i in range(cap)]
+    if len(fig) < 10:
+        raise vlib.ToolError("directed run produced only %d figure-8 behaviours" % len(fig))
+    f8file = os.path.join(d, "cases_fig8.ndjson")
+    vlib.write_ndjson(f8file, fig)
+    f8_trace = os.path.join(d, "step_fig8.ndjson")
+    fsumm = _run(step_exe, ["replay", f8file, f8_trace], "raft_step replay (figure-8)")
+    for dv in fsumm["diverged"][:10]:
+        res.drift.append({"kind": "a message the model delivers was never sent by the real code (fig8)", **dv})
+    f8_cases = _renumber(_cases(f8_trace), 50000)
+    rp_cases += f8_cases
+    summ["steps"] += fsumm["steps"]
+    res.extra["directed_fig8"] = {"behaviours_found_by_tlc": nfig, "replayed_into_raft_step": len(fig)}
+    res.samples.append({"kind": "directed TLC behaviour into a figure-8 situation (tick inputs, last 4 ticks)",
+                        "steps": fig[0]["steps"][-4:]})
+
     # (3) code -> spec: seeded random schedules of the real raft_step
     count, steps = (1000, 80) if thorough else (150, 60)
     rd_trace = os.path.join(d, "step_random.ndjson")
@@ -329,6 +411,15 @@ def run(tier):
     viol, drift = _validate("RaftTrace", step_cases + [c for _, c in can], res, "steps")
     by_id = {c[0]["case"]: c for c in step_cases}
     _report(res, viol, by_id, "raft", "RaftTrace", can)
+    a8, b8, c8 = _fig8_counts(step_cases)
+    d8 = _fig8_counts(rd_cases)
+    res.extra["step_d_older_term_candidate"] = {
+        "real_steps_leader_holds_uncommitted_older_term_entry": a8,
+        "real_steps_in_figure8_situation (older-term entry on a majority, last entry of own term)": b8,
+        "cases_with_figure8_situation": c8,
+        "of_which_in_seeded_random_runs": {"steps": d8[1], "cases": d8[2]}}
+    if b8 == 0 and not res.violations:
+        raise vlib.ToolError("vacuous: no recorded real step was in the figure-8 situation")
     if vacuous_steps and not res.violations:
         raise vlib.ToolError("vacuous random raft_step run: %s" % rsumm)
     if len(can) < 3 and not res.violations:
